@@ -56,19 +56,29 @@ func arithBinary() parsley.Interpreter {
 	})
 }
 
-func newArith() *arithParsers {
+func newArith() *arithParsers { return newArithOrder(false) }
+
+// newArithOrder: baseFirst lists the non-recursive alternative first (expr -> term | expr (+|-) term), the order used by
+// the library's own ExampleMemoize; the language and the values are the same
+func newArithOrder(baseFirst bool) *arithParsers {
 	tok := func(p parsley.Parser) parsley.Parser { return text.LeftTrim(p, text.WsSpacesNl) }
+	alts := func(rec, base parsley.Parser) parsley.Parser {
+		if baseFirst {
+			return combinator.Any(base, rec)
+		}
+		return combinator.Any(rec, base)
+	}
 	var expr, term, factor parser.Func
 	bin := arithBinary()
-	factor = combinator.Memoize(combinator.Any(
-		tok(terminal.Integer("int")),
+	factor = combinator.Memoize(alts(
 		combinator.SeqOf(tok(terminal.Rune('(')), &expr, tok(terminal.Rune(')'))).Bind(interpreter.Select(1)),
+		tok(terminal.Integer("int")),
 	))
-	term = combinator.Memoize(combinator.Any(
+	term = combinator.Memoize(alts(
 		combinator.SeqOf(&term, tok(combinator.Choice(terminal.Rune('*'), terminal.Rune('/'))), &factor).Bind(bin),
 		&factor,
 	))
-	expr = combinator.Memoize(combinator.Any(
+	expr = combinator.Memoize(alts(
 		combinator.SeqOf(&expr, tok(combinator.Choice(terminal.Rune('+'), terminal.Rune('-'))), &term).Bind(bin),
 		&term,
 	))
